@@ -84,6 +84,12 @@ ASSUMPTIONS = [
 ]
 
 
+def jvm_tmp(ctx):
+    """TLC unpacks its standard modules into java.io.tmpdir and leaves them there:
+    keep that inside the scratch directory."""
+    return ["-Djava.io.tmpdir=" + ctx.sub("jtmp")]
+
+
 # --------------------------------------------------------------------------- TLC output parsing
 
 def _tla_strings(line):
@@ -370,7 +376,7 @@ class Validator:
     def _tlc(self, lines, cfg):
         self.n += 1
         self.tlc_runs += 1
-        return self.ctx.tlc("RaftStoreTrace", cfg=cfg, workers=1, timeout=1200, heap="4g",
+        return self.ctx.tlc("RaftStoreTrace", cfg=cfg, workers=1, timeout=1200, heap="4g", jvm=jvm_tmp(self.ctx),
                             files={"trace.ndjson": "\n".join(lines) + "\n"}, name="tv-%d" % self.n)
 
     def validate_chunk(self, progs):
@@ -490,7 +496,7 @@ def selftest(ctx, rig):
     out = {}
 
     def run(lines, cfg="RaftStoreTrace.cfg"):
-        return ctx.tlc("RaftStoreTrace", cfg=cfg, workers=1, timeout=300, heap="2g",
+        return ctx.tlc("RaftStoreTrace", cfg=cfg, workers=1, timeout=300, heap="2g", jvm=jvm_tmp(ctx),
                        files={"trace.ndjson": "\n".join(lines) + "\n"}, name="st-%d" % len(os.listdir(ctx.scratch)))
 
     base = run(recs)
@@ -545,7 +551,8 @@ def selftest(ctx, rig):
 def tlc_design(ctx, cfg, workers, timeout, coverage=False, simulate=None, depth=None, module="RaftStoreMC",
                deadlock=True):
     r = ctx.tlc(module, cfg=cfg, workers=workers, timeout=timeout, coverage=coverage, deadlock=deadlock,
-                simulate=simulate, depth=depth, heap="6g", name="design-" + cfg.replace(".cfg", ""))
+                simulate=simulate, depth=depth, heap="6g", jvm=jvm_tmp(ctx),
+                name="design-" + cfg.replace(".cfg", ""))
     if not r.ok:
         # a counterexample on the design spec alone is never a violation
         raise vlib.Inconclusive("TLC on the design spec (%s) did not pass: violated=%s rc=%s timed_out=%s\n%s" % (
